@@ -54,6 +54,14 @@ def respell(name):
     return name[:-1] + ORG_REL if under_org(name) else name
 
 
+def respell_to(name, org):
+    """generic form: the name as it reads after relativizing to org and appending org again"""
+    k = len(org)
+    if k and len(name) >= k and [fold(x) for x in name[-k:]] == [fold(x) for x in org]:
+        return name[:len(name) - k] + org
+    return name
+
+
 def respell_segs(segs):
     return [["n", respell(s[1])] if s[0] == "n" else s for s in segs]
 
@@ -298,8 +306,20 @@ def jobs_random(templates, rng, count):
                   "labels": rng.randint(0, len(owner) + 1), "ottl": [rng.randrange(256) for _ in range(4)],
                   "exp": [rng.randrange(256) for _ in range(4)], "inc": [rng.randrange(256) for _ in range(4)],
                   "tag": [rng.randrange(256) for _ in range(2)], "signer": owner[rng.randint(0, len(owner)):]}
-            out.append({"k": "sig", "key": t["key"], "t": t["num"], "c": cls, "owner": owner, "rrs": [fill(t) for _ in range(n)],
-                        "sg": sg, "mode": rng.choice(["abs", "tuple"])})
+            sj = {"k": "sig", "key": t["key"], "t": t["num"], "c": cls, "owner": owner, "rrs": [fill(t) for _ in range(n)],
+                  "sg": sg, "mode": rng.choice(["abs", "tuple"])}
+            if base and rng.random() < 0.5:
+                # relative modes: origin = a suffix of the base name, so the case variants of base become RELATIVE names
+                # and the other random names stay ABSOLUTE inside one RRset; sometimes the owner lives below the origin
+                org = base[rng.randrange(len(base)):]
+                if rng.random() < 0.5:
+                    sj["owner"] = owner[:1] + org
+                    sg["labels"] = rng.randint(0, len(sj["owner"]) + 1)
+                    sg["signer"] = org
+                sj.update(mode=rng.choice(["rel", "reltuple"]), org=org, owner=respell_to(sj["owner"], org),
+                          rrs=[[["n", respell_to(x[1], org)] if x[0] == "n" else x for x in segs] for segs in sj["rrs"]])
+                sg["signer"] = respell_to(sg["signer"], org)
+            out.append(sj)
         elif r < 0.9:
             key = [rng.randrange(256), rng.randrange(256), 3, rng.choice([1, 5, 8, 13, 15, 253])] + \
                   [rng.randrange(256) for _ in range(rng.choice([3, 4, 31, 32, 33, 64, 65, 130, 259]))]
@@ -412,6 +432,37 @@ def is_apex_only_rel(e):
     return e["rel"] and e["chain"] == [] and all(r["o"] == z["origin"] for r in z["rrs"])
 
 
+def is_releq(e):
+    """exactly the known case: in a relative mode two different RRs of the set, each with at least one name below the
+    origin, read the same once the origin is left out (`@` vs `.`, `a` vs `a.`): the library's comparison of rdatas
+    with relative names completes them with the ROOT, finds them equal and the RRset silently keeps only one"""
+    if e.get("mode") not in ("rel", "reltuple") or "org" not in e:
+        return False
+    org = [fold(x) for x in e["org"]]
+    k = len(org)
+    seen = {}
+    for segs in e["rrs"]:
+        full, stripped, has_rel = [], [], False
+        for s in segs:
+            if s[0] != "n":
+                full.append(s[1])
+                stripped.append(s[1])
+                continue
+            n = [fold(x) for x in s[1]]
+            full.append(n)
+            if k and len(n) >= k and n[len(n) - k:] == org:
+                has_rel = True
+                n = n[:len(n) - k]
+            stripped.append(n)
+        if not has_rel:
+            continue
+        key = json.dumps(stripped)
+        if key in seen and seen[key] != json.dumps(full):
+            return True
+        seen.setdefault(key, json.dumps(full))
+    return False
+
+
 def classify(tr, line, clause):
     ev = tr["ev"]
     e = ev[line - 1] if line and 0 < line <= len(ev) else {}
@@ -425,6 +476,8 @@ def classify(tr, line, clause):
             return "C15-CHA:CH-A-canonical-form-lowercases-domain"
         if e["t"] in OBSOLETE and out[1] == plain_wire(e["segs"]):
             return "C15-OBS:rfc4034-6.2-type-parsed-as-generic-not-lowercased"
+    if op == "sig" and clause == "SigStructure" and out[0] == "ok" and is_releq(e):
+        return "C15-RELEQ:rdatas-with-relative-names-compared-as-if-relative-to-root:rrset-drops-a-record"
     if op == "sig" and clause in ("SigCase", "SigStructure") and out[0] == "ok":
         if e["t"] == 107:
             return "F11:LP-canonical-form-lowercases-fqdn:sig"
